@@ -17,6 +17,7 @@ import (
 	"errors"
 	"flag"
 	"fmt"
+	"hash/fnv"
 	"os"
 	"regexp"
 	"strconv"
@@ -42,6 +43,13 @@ const (
 	allocSlack  = 4096
 	slowLimit   = 2 * time.Second
 )
+
+// fnv64 hashes an op line (the distinct-case sets keep hashes, not the lines).
+func fnv64(s string) uint64 {
+	h := fnv.New64a()
+	_, _ = h.Write([]byte(s))
+	return h.Sum64()
+}
 
 func hx(b []byte) string {
 	if len(b) == 0 {
@@ -901,14 +909,14 @@ func main() {
 
 	rng := hlib.NewRng(*seed)
 	g := &gen{r: rng, res: res}
-	seen := map[string]bool{}
-	accepted := map[string]bool{}
+	seen := map[uint64]bool{}
+	accepted := map[uint64]bool{}
 	count := func(op, class string) {
 		k := strings.Fields(op)[0]
 		res.Count("op:" + k)
 		res.Count("res:" + k + ":" + class)
-		if class == "ok" && !strings.HasPrefix(k, "enc-") && !accepted[op] {
-			accepted[op] = true
+		if class == "ok" && !strings.HasPrefix(k, "enc-") && !accepted[fnv64(op)] {
+			accepted[fnv64(op)] = true
 			res.Distinct++
 		}
 	}
@@ -927,8 +935,8 @@ func main() {
 		for _, op := range ops {
 			res.Cases++
 			res.Ops++
-			if !seen[op] {
-				seen[op] = true
+			if !seen[fnv64(op)] {
+				seen[fnv64(op)] = true
 				res.Count("distinct-inputs")
 			}
 		}
